@@ -89,7 +89,7 @@ class Oblig:
 class Loop:
     def __init__(self, invariant=None, decreases=None, index=None, fingerprint=None, ghost_before=None,
                  ghost_body_start=None, ghost_body_end=None, modifies=None, seq_name=None, hints=None, exit_facts=None, pres_from=None,
-                 assume_before=None):
+                 assume_before=None, assume_head=None):
         self.invariant = invariant or {}
         self.decreases = decreases
         self.index = index
@@ -101,6 +101,7 @@ class Loop:
         self.seq_name = seq_name
         self.hints = hints or []
         self.exit_facts = exit_facts or []
+        self.assume_head = list(assume_head or [])  # instances of mathematical theorems (e.g. card_mono) assumed at the loop head; listed as assumptions
         self.assume_before = list(assume_before or [])  # DEFINITIONS of ghost arrays over the loop's sequence (recorded as assumptions)
         self.pres_from = pres_from or {}  # invariant name -> labels of anchor assertions: preservation is proved from those facts
         #                                    (plus the quantifier-free path facts) only
@@ -1877,6 +1878,9 @@ class Engine:
             f_ = self.spec_bool(e, h)
             h.assume(f_)
             h.named["loop%d:%s" % (k, name)] = f_
+        for ai_, a_ in enumerate(lc.assume_head):
+            h.assume(self.spec_bool(a_, h))
+            self.assumptions_used.add("theorem instance assumed at the head of loop %d in %s: %s" % (k, self.c.func, a_[:160]))
         for hi, e in enumerate(lc.hints):
             self.oblige_spec(h, "hint", "loop%d:hint%d" % (k, hi), e, s)
             h.assume(self.spec_bool(e, h))
@@ -1887,8 +1891,10 @@ class Engine:
         self.reach.append(("loop%d-body" % k, list(b.pc)))
         m0 = None
         if lc.decreases:
-            m0 = SpecEnv(self, self.c, None).ev_int(lc.decreases, b)
-            self.oblige(b, "decreases", "loop%d:bounded-below" % k, m0 >= 0, s)
+            # a single integer measure, or a list / tuple of them compared lexicographically (each component bounded below by 0)
+            dec = lc.decreases if isinstance(lc.decreases, (list, tuple)) else [lc.decreases]
+            m0 = [SpecEnv(self, self.c, None).ev_int(d_, b) for d_ in dec]
+            self.oblige(b, "decreases", "loop%d:bounded-below" % k, z3.And(*[m_ >= 0 for m_ in m0]), s)
         if lc.ghost_body_start:
             self.run_ghost(lc.ghost_body_start, b)
         res = self.exec_block(s.body, b)
@@ -1903,8 +1909,11 @@ class Engine:
                 for name, e in lc.invariant.items():
                     self.oblige_spec(s2, "inv-pres", "loop%d:%s" % (k, name), e, s)
                 if m0 is not None:
-                    m1 = SpecEnv(self, self.c, None).ev_int(lc.decreases, s2)
-                    self.oblige(s2, "decreases", "loop%d:strict" % k, m1 < m0, s)
+                    m1 = [SpecEnv(self, self.c, None).ev_int(d_, s2) for d_ in dec]
+                    lex = z3.BoolVal(False)
+                    for i_ in reversed(range(len(m0))):
+                        lex = z3.Or(m1[i_] < m0[i_], z3.And(m1[i_] == m0[i_], lex))
+                    self.oblige(s2, "decreases", "loop%d:strict" % k, lex, s)
             elif kind == "break":
                 out.append((s2, "next", None))
             else:
